@@ -130,7 +130,8 @@ func householderBidiagonalization(inSitu *InSitu, epsilon float64) (Matrix, Matr
       if V != nil {
         nu := inSitu.Nu
         nu.At(j).SetFloat64(0.0)
-        householder.ApplyLeft(V, beta, nu.Slice(0,n), t.Slice(0,n), inSitu.T1)
+        // V = H_0 H_1 ..., i.e. the reflections are accumulated from the right
+        householder.ApplyRight(V, beta, nu.Slice(0,n), t.Slice(0,n), inSitu.T1)
       }
     }
   }
